@@ -266,6 +266,7 @@ func (u *Unit) staticCall(fr *frame, st *State, callee *ssa.Function, args []Val
 		return u.freshResult(st, resT, "ro_"+callee.Name())
 	}
 	u.note("callee " + shortFuncName(callee) + " has no contract: heap havocked at the call")
+	u.havocRoots, u.havocRooted = []*ssa.Function{callee}, true
 	u.havocAll(st, "call to "+shortFuncName(callee)+" without contract")
 	return u.freshResult(st, resT, "unk_"+callee.Name())
 }
@@ -393,6 +394,9 @@ func (u *Unit) applyContract(fr *frame, st *State, callee *ssa.Function, c *Cont
 	}
 	pre := st.Clone()
 	if c.ModAll {
+		if callee != nil && callee.Blocks != nil {
+			u.havocRoots, u.havocRooted = []*ssa.Function{callee}, true
+		}
 		u.havocAll(st, "contract of "+name+" modifies *")
 	} else {
 		var items []modItem
